@@ -20,7 +20,9 @@ THOROUGH_SECONDS = 900
 CASE_TIMEOUT = 120
 LEVEL = 'exploration'
 RULE = ('case = (payload size/itemsize/compression block size, symbolic cut list resolved against the '
-        'actual frame layout, chunk object types, direct-iterator or asdf end-to-end with io_block_size). '
+        'actual frame layout, chunk object types, direct-iterator or asdf end-to-end with io_block_size; in 35% of the '
+        'cases one or two other streams are decompressed at the same time by the same compressor instance, their '
+        'chunk pulls interleaved by the seeded scheduler). '
         'non-trivial = stream cut into >= 2 chunks; distinct = distinct (frames, sorted cut classes, '
         'chunk types, mode, io_block_size) tuples')
 COMPONENTS = {'real': ['abacusnbody.data.asdf.BloscCompressor.compress/decompress', 'asdf block reader/writer'],
@@ -62,7 +64,15 @@ def gen(rng, tier):
             cuts.append(['abs', rng.random()])
     empties = sorted(rng.random() for _ in range(rng.choice([0, 0, 1, 3])))
     mode = rng.choice(['direct', 'direct', 'direct', 'asdf'])
+    conc = None
+    if rng.random() < 0.35:
+        # other blocks being read at the same time (the extension's single compressor instance serves every block
+        # of every open file): their chunk iterators are stepped by the same seeded scheduler
+        conc = {'seed': rng.randrange(1 << 30),
+                'others': [{'nitems': rng.choice([1, 3, 17, 100, rng.randrange(1, 400)]), 'chunk': rng.choice([1, 2, 3, 5, 7, 64]),
+                            'nframes': rng.choice([1, 2, 3])} for _ in range(rng.choice([1, 1, 2]))]}
     return {
+        'concurrent': conc,
         'pseed': rng.randrange(1 << 30), 'pattern': rng.choice(['random', 'ramp', 'zeros']),
         'nitems': nitems, 'itemsize': itemsize, 'cbs': cbs, 'cuts': cuts,
         'ones': style == 'ones', 'empties': empties,
@@ -221,6 +231,42 @@ def run(case):
         if not ok1 or not ok0:
             violation(out, 'write-past-end', site, 'guard zone after the output buffer was modified')
         out['events'].append(['direct', n1, len(chunks)])
+    # ---- the same history while other blocks are being decompressed by the same compressor instance
+    if case.get('concurrent') and n1 is not None and len(tchunks) <= 20000:
+        conc = case['concurrent']
+        streams = [(tchunks, nbytes)]
+        pays = [payload]
+        for j, o in enumerate(conc['others']):
+            p2 = np.random.default_rng(conc['seed'] + j).integers(0, 256, o['nitems'] * case['itemsize'], dtype=np.uint8)
+            a2 = p2.view(_dtype(case['itemsize']))
+            cb2 = max(1, -(-o['nitems'] // o['nframes'])) * case['itemsize']
+            s2 = b''.join(bytes(x) for x in BloscCompressor().compress(memoryview(a2), compression_block_size=cb2))
+            streams.append(([s2[i:i + o['chunk']] for i in range(0, len(s2), o['chunk'])], len(p2)))
+            pays.append(p2)
+        site = 'decompress-concurrent'
+        res, order = _interleaved(BloscCompressor(), streams, conc['seed'], case.get('poison', 'A'))
+        sw = sum(1 for a, b in zip(order, order[1:]) if a != b)
+        bump(out['faults'], 'reader-switches', sw)
+        bump(out['faults'], 'concurrent-streams', len(streams))
+        for k, r in enumerate(res):
+            who = 'stream-%d' % k
+            if r is None or r[0] == 'stalled':
+                out['harness'] = 'simulated reader stalled'
+                return out
+            if r[0] == 'exc':
+                violation(out, 'raises:' + type(r[1]).__name__, site, {'stream': who, 'error': repr(r[1])[:200]})
+                break
+            _, n, b, ok = r
+            if n != len(pays[k]):
+                violation(out, 'wrong-length', site, {'stream': who, 'returned': int(n), 'payload': len(pays[k])})
+                break
+            if b.tobytes() != pays[k].tobytes():
+                violation(out, 'wrong-bytes', site, {'stream': who, 'first_diff': _firstdiff(b, pays[k])})
+                break
+            if not ok:
+                violation(out, 'write-past-end', site, {'stream': who})
+                break
+        out['events'].append(['concurrent', len(streams), len(order), sw])
     # ---- end to end through asdf with the io_block_size knob
     if case['mode'] == 'asdf':
         _asdf_roundtrip(case, arr, out)
@@ -230,6 +276,67 @@ def run(case):
                              case['io_block'] if case['mode'] == 'asdf' else None]
     out['steps'] = len(chunks)
     return out
+
+
+def _interleaved(comp, streams, seed, poison):
+    """Several decompress calls in flight on one compressor instance.  Each runs on its own (real) thread that is
+    parked before every chunk it pulls; the seeded scheduler releases exactly one at a time, so the order in which the
+    streams advance is a function of ``seed`` alone."""
+    import random
+    import threading
+    rng = random.Random(seed)
+    K = len(streams)
+    go = [threading.Semaphore(0) for _ in range(K)]
+    back = threading.Semaphore(0)
+    done = [False] * K
+    res = [None] * K
+    fillv = {'A': 0xFF, 'B': 0x7F}[poison]
+
+    class Stalled(Exception):
+        pass
+
+    def park(k):
+        back.release()
+        if not go[k].acquire(timeout=60):
+            raise Stalled()
+
+    def feeder(k, chunks):
+        for c in chunks:
+            park(k)
+            yield c
+        park(k)
+
+    def worker(k):
+        chunks, nbytes = streams[k]
+        if not go[k].acquire(timeout=60):
+            return
+        try:
+            buf = np.full(nbytes + 64, fillv, dtype=np.uint8)
+            n = comp.decompress(feeder(k, chunks), memoryview(buf)[:nbytes])
+            res[k] = ('ok', n, buf[:nbytes].copy(), bool((buf[nbytes:] == fillv).all()))
+        except Stalled:
+            res[k] = ('stalled',)
+        except Exception as e:        # data for the oracle
+            res[k] = ('exc', e)
+        done[k] = True
+        back.release()
+
+    ths = [threading.Thread(target=worker, args=(k,), daemon=True) for k in range(K)]
+    for t in ths:
+        t.start()
+    alive = list(range(K))
+    order = []
+    while alive:
+        k = rng.choice(alive)
+        order.append(k)
+        go[k].release()
+        if not back.acquire(timeout=60):
+            raise RuntimeError('simulated reader %d did not come back' % k)
+        if done[k]:
+            alive.remove(k)
+    for t in ths:
+        t.join(timeout=60)
+    return res, order
 
 
 def _firstdiff(a, b):
@@ -275,6 +382,15 @@ def _asdf_roundtrip(case, arr, out):
 
 def shrink(case):
     c = dict(case)
+    if case.get('concurrent'):
+        yield dict(c, concurrent=None)
+        oth = case['concurrent']['others']
+        if len(oth) > 1:
+            for i in range(len(oth)):
+                yield dict(c, concurrent=dict(case['concurrent'], others=oth[:i] + oth[i + 1:]))
+        for i, o in enumerate(oth):
+            if o['nitems'] > 1:
+                yield dict(c, concurrent=dict(case['concurrent'], others=oth[:i] + [dict(o, nitems=o['nitems'] // 2)] + oth[i + 1:]))
     if case['mode'] == 'asdf':
         yield dict(c, mode='direct')
     for i in range(len(case['cuts'])):
